@@ -401,3 +401,224 @@ pub fn monitor_sweep(ctx: &Ctx) -> u64 {
     });
     count.load(std::sync::atomic::Ordering::Relaxed)
 }
+
+// ================================================================== C02 (shares the edit machinery)
+
+fn census(m: &bemodel::Model) -> Vec<u64> {
+    let c = |b: bool| b as u64;
+    vec![
+        m.spaces.len() as u64,
+        m.walls.len() as u64,
+        m.windows.len() as u64,
+        m.shades.len() as u64,
+        m.thermal_bridges.len() as u64,
+        m.spaces.iter().map(|s| c(s.loads.is_some())).sum(),
+        m.spaces.iter().map(|s| c(s.thermostat.is_some())).sum(),
+        m.walls.iter().map(|s| c(s.next_to.is_some())).sum(),
+        m.cons.wallcons.len() as u64,
+        m.cons.wallcons.iter().map(|w| w.layers.len() as u64).sum(),
+        m.cons.wincons.len() as u64,
+        m.loads.len() as u64,
+        m.thermostats.len() as u64,
+        m.loads.iter().map(|l| c(l.people_schedule.is_some()) + c(l.equipment_schedule.is_some()) + c(l.lighting_schedule.is_some())).sum(),
+        m.thermostats.iter().map(|l| c(l.temp_max.is_some()) + c(l.temp_min.is_some())).sum(),
+        m.schedules.year.len() as u64,
+        m.schedules.year.iter().map(|y| y.values.len() as u64).sum(),
+        m.schedules.week.len() as u64,
+        m.schedules.week.iter().map(|y| y.values.len() as u64).sum(),
+        m.schedules.day.len() as u64,
+    ]
+}
+
+const CENSUS_NAMES: [&str; 20] = ["spaces", "walls", "windows", "shades", "bridges", "space->loads", "space->thermostat", "wall->next_to", "wallcons", "layers", "wincons", "loads", "thermostats", "loads->schedule", "thermostat->schedule", "year", "year periods", "week", "week runs", "day"];
+
+const DEF_BLOCKS: [&str; 12] = ["POLYGON", "CONSTRUCTION", "LAYERS", "MATERIAL", "GLASS-TYPE", "NAME-FRAME", "GAP", "DAY-SCHEDULE-PD", "WEEK-SCHEDULE-PD", "SCHEDULE-PD", "SPACE-CONDITIONS", "SYSTEM-CONDITIONS"];
+
+fn convert_outcome(fmt: Fmt, text: &str) -> Value {
+    match corpus::convert_text(text, fmt == Fmt::Cte) {
+        corpus::Outcome::Ok(m) => {
+            let defects = crate::refm::closure_defects(&m);
+            let checker = bemodel::check(&m).len();
+            json!({"verdict": "ok", "census": census(&m), "defects": defects.iter().take(5).collect::<Vec<_>>(), "n_defects": defects.len(), "checker_warnings": checker})
+        }
+        corpus::Outcome::Err(e) => json!({"verdict": "err", "msg": e}),
+        corpus::Outcome::Panic(p) => json!({"verdict": "panic", "panic": p}),
+    }
+}
+
+/// indices (into the C19 case space) of the C02 edits: rename-reference and remove-definition-block of project files
+fn c02_indices(st: &State, tier: Tier) -> Vec<u64> {
+    let mut projects: Vec<usize> = st.files.iter().enumerate().filter(|(_, f)| matches!(f.fmt, Fmt::Ctehexml | Fmt::Cte)).map(|(i, _)| i).collect();
+    if tier == Tier::Quick {
+        projects.sort_by_key(|i| st.files[*i].lines.len());
+        // the 3 smallest .ctehexml and the 3 smallest .cte
+        let mut sel = vec![];
+        for fmt in [Fmt::Ctehexml, Fmt::Cte] {
+            sel.extend(projects.iter().filter(|i| st.files[**i].fmt == fmt).take(3).copied());
+        }
+        projects = sel;
+    }
+    let mut idxs = vec![];
+    for fi in projects {
+        let f = &st.files[fi];
+        let n = f.lines.len() as u64;
+        for (b, (a, _)) in f.blocks.iter().enumerate() {
+            let hdr = f.lines[*a].trim();
+            let ty = hdr.rsplit('=').next().unwrap_or("").trim();
+            if DEF_BLOCKS.contains(&ty) {
+                idxs.push(st.offsets[fi] + 3 * n + b as u64);
+            }
+        }
+        for r in 0..f.refs.len() as u64 {
+            idxs.push(st.offsets[fi] + 3 * n + f.blocks.len() as u64 + r);
+        }
+    }
+    idxs
+}
+
+pub fn worker_c02(_space: &str, idx: u64) -> Value {
+    STATE.with(|st| {
+        let mut st = st.borrow_mut();
+        if st.is_none() {
+            *st = Some(build_state());
+            let _ = corpus::catalog();
+        }
+        let st = st.as_ref().unwrap();
+        if idx >= 1 << 40 {
+            // baseline of file (idx - 2^40)
+            let f = &st.files[(idx - (1 << 40)) as usize];
+            return convert_outcome(f.fmt, &f.lines.join("\n"));
+        }
+        let fi = st.offsets.partition_point(|o| *o <= idx) - 1;
+        let f = &st.files[fi];
+        convert_outcome(f.fmt, &f.damaged(idx - st.offsets[fi]))
+    })
+}
+
+pub fn run_c02(ctx: &Ctx) -> i32 {
+    let st = build_state();
+    // (a) every convertible project: closed, checker silent
+    let nfiles = st.files.iter().filter(|f| matches!(f.fmt, Fmt::Ctehexml | Fmt::Cte)).count();
+    let base_idx: Vec<u64> = st.files.iter().enumerate().filter(|(_, f)| matches!(f.fmt, Fmt::Ctehexml | Fmt::Cte)).map(|(i, _)| (1u64 << 40) + i as u64).collect();
+    let baselines: Mutex<BTreeMap<usize, Value>> = Mutex::new(BTreeMap::new());
+    sup::supervise("c02", &base_idx, std::time::Duration::from_secs(60), &|idx, v| {
+        baselines.lock().unwrap().insert((idx - (1 << 40)) as usize, v);
+        true
+    });
+    let baselines = baselines.into_inner().unwrap();
+    let mut converted = 0;
+    for (fi, v) in &baselines {
+        ctx.eval(1);
+        let f = &st.files[*fi];
+        let fname = f.path.rsplit('/').next().unwrap();
+        match v["verdict"].as_str() {
+            Some("ok") => {
+                converted += 1;
+                ctx.nontriv(1);
+                if v["n_defects"].as_u64().unwrap_or(0) > 0 || v["checker_warnings"].as_u64().unwrap_or(0) > 0 {
+                    ctx.violation(&format!("closure:shipped-project:{}", v["defects"][0].as_str().unwrap_or("checker").split(':').next().unwrap_or("")), &format!("{} converts to a model that is not closed: {} defects (first: {}), {} checker warnings", fname, v["n_defects"], v["defects"][0], v["checker_warnings"]), json!({"file": f.path}));
+                }
+            }
+            Some("panic") => ctx.violation(&format!("panic:{}", panic_key(v["panic"].as_str().unwrap_or(""))), &format!("intact shipped file {} makes the conversion panic: {}", fname, v["panic"]), json!({"file": f.path})),
+            Some("err") => {}
+            other => ctx.violation(&format!("baseline:{:?}", other), &format!("{}: {:?}", fname, v), json!({"file": f.path})),
+        }
+    }
+    // generated projects
+    let specs = crate::projgen::all_specs(Tier::Quick);
+    let gstride = ctx.tier.pick(9, 1);
+    let mut gen_n = 0;
+    for s in specs.iter().step_by(gstride) {
+        ctx.eval(1);
+        gen_n += 1;
+        match corpus::convert_text(&crate::projgen::ctehexml_text(s), false) {
+            corpus::Outcome::Ok(m) => {
+                ctx.nontriv(1);
+                let d = crate::refm::closure_defects(&m);
+                if !d.is_empty() || !bemodel::check(&m).is_empty() {
+                    ctx.violation("closure:generated-project", &format!("generated project converts to a model that is not closed: {:?}", d.iter().take(3).collect::<Vec<_>>()), json!({"spec": format!("{:?}", s)}));
+                }
+            }
+            corpus::Outcome::Err(e) => ctx.violation("convert:generated-project-rejected", &e, json!({"spec": format!("{:?}", s)})),
+            corpus::Outcome::Panic(p) => ctx.violation(&format!("panic:{}", panic_key(&p)), &p, json!({"spec": format!("{:?}", s)})),
+        }
+    }
+    // (c) single broken references / removed definitions
+    let idxs = c02_indices(&st, ctx.tier);
+    let tally = Mutex::new((0u64, 0u64, 0u64));
+    sup::supervise("c02", &idxs, std::time::Duration::from_secs(30), &|idx, v| {
+        let fi = st.offsets.partition_point(|o| *o <= idx) - 1;
+        let f = &st.files[fi];
+        let (kind, descr) = f.describe(idx - st.offsets[fi]);
+        ctx.eval(1);
+        let Some(base) = baselines.get(&fi) else { return true };
+        if base["verdict"] != "ok" {
+            return true; // projects that do not convert in the first place are C19's business
+        }
+        let mut t = tally.lock().unwrap();
+        match v["verdict"].as_str() {
+            Some("err") => {
+                t.1 += 1;
+                ctx.nontriv(1);
+            }
+            Some("ok") => {
+                t.0 += 1;
+                let what = descr["name"].as_str().map(|n| format!("reference to {:?}", n)).unwrap_or_else(|| format!("definition {}", descr["header"].as_str().unwrap_or("")));
+                if v["n_defects"].as_u64().unwrap_or(0) > 0 || v["checker_warnings"].as_u64().unwrap_or(0) > 0 {
+                    drop(t);
+                    let kindname = v["defects"][0].as_str().unwrap_or("checker").split(':').next().unwrap_or("").to_string();
+                    ctx.violation(&format!("broken-reference-yields-open-model:{}", kindname), &format!("{} ({}) still converts, to a model with missing/nil links: {}", kind, what, v["defects"]), json!({"case": descr, "index": idx, "result": v}));
+                    return true;
+                }
+                let (a, b) = (v["census"].as_array().cloned().unwrap_or_default(), base["census"].as_array().cloned().unwrap_or_default());
+                // a renamed reference removes nothing: the census must be identical; a removed definition may take its own
+                // (possibly unused) item away, but no element and no link of a surviving element may disappear
+                let (a, b) = if kind == "rename-reference" { (a, b) } else { (a.into_iter().take(8).collect::<Vec<_>>(), b.into_iter().take(8).collect::<Vec<_>>()) };
+                if a != b {
+                    let which: Vec<String> = (0..a.len().min(b.len())).filter(|i| a[*i] != b[*i]).map(|i| format!("{} {}->{}", CENSUS_NAMES[i], b[i], a[i])).collect();
+                    let first = (0..a.len().min(b.len())).find(|i| a[*i] != b[*i]).map(|i| CENSUS_NAMES[i]).unwrap_or("?");
+                    drop(t);
+                    // the key names the attribute whose reference was broken (call-site level)
+                    let attr = descr["text"].as_str().or(descr["header"].as_str()).unwrap_or("");
+                    let akey = f.lines.get(descr["line"].as_u64().unwrap_or(1) as usize - 1).and_then(|l| l.split('=').next()).map(|k| k.trim().to_string()).unwrap_or_default();
+                    let _ = attr;
+                    ctx.violation(&format!("broken-reference-silently-dropped:{}:{}", if kind == "rename-reference" { akey } else { descr["header"].as_str().unwrap_or("").rsplit('=').next().unwrap_or("").trim().to_string() }, first), &format!("{} ({}) still converts and the model silently loses links/items: {}", kind, what, which.join(", ")), json!({"case": descr, "index": idx, "result": v}));
+                    return true;
+                }
+            }
+            Some("panic") => {
+                t.2 += 1;
+                ctx.nontriv(1);
+                drop(t);
+                let p = v["panic"].as_str().unwrap_or("");
+                ctx.violation(&format!("panic:{}", panic_key(p)), &format!("{} makes the conversion panic: {}", kind, p), json!({"case": descr, "index": idx, "result": v}));
+            }
+            Some(other) => {
+                drop(t);
+                ctx.violation(&format!("{}:{}", other, kind), &format!("{} on {}: {}", kind, f.path, other), json!({"case": descr, "index": idx, "result": v}));
+            }
+            None => {}
+        }
+        true
+    });
+    let t = tally.lock().unwrap();
+    ctx.outcome(&"closed");
+    if t.1 > 0 {
+        ctx.outcome(&"err");
+    }
+    if t.0 > 0 {
+        ctx.outcome(&"still-ok");
+    }
+    ctx.note("tally", json!({"project_files": nfiles, "converted": converted, "generated_projects": gen_n, "broken_reference_edits": idxs.len(), "rejected_with_error": t.1, "still_converted_to_identical_closed_model": t.0, "panicked": t.2}));
+    if let Some(i) = idxs.get(idxs.len() / 2) {
+        let fi = st.offsets.partition_point(|o| *o <= *i) - 1;
+        ctx.sample(json!({"edit": st.files[fi].describe(*i - st.offsets[fi]).1}));
+    }
+    ctx.sample(json!({"part": "closure", "file": "cubo.ctehexml", "oracle": "ids unique per collection, 17 reference kinds resolve, no nil id, bemodel::check empty"}));
+    ctx.finish(
+        "fault_enumeration",
+        "(a) every shipped project (12 .ctehexml with catalog, 56 legacy .cte with catalog + default general data) and generated projects: a successful conversion must be referentially closed (ids unique per collection, 17 reference kinds resolve, no nil id) and silent under bemodel::check; (c) every project obtained by renaming one reference occurrence (attribute keys POLYGON, CONSTRUCTION, LAYERS, MATERIAL, GLASS-TYPE, NAME-FRAME, GAP, SPACE-/SYSTEM-CONDITIONS, NEXT-TO, DAY-/WEEK-SCHEDULES, *-SCHEDULE, *-TEMP-SCH, SPACE-TYPE) or removing one definition block (quick: the 3 smallest projects of each format; thorough: all): the outcome must be an error, or - when the broken name was not needed - a closed model with exactly the same census of elements and resolved links as the intact project; a model with missing/nil links, a silently dropped link, a panic or a timeout is a violation; non-trivial = conversion outcome differs from plain success",
+        true,
+        json!({}),
+    )
+}
